@@ -41,7 +41,7 @@ def show_trace(path):
             loc = out[2 * i + 1] if 2 * i + 1 < len(out) else ""
             names[(mod, a)] = "%s (%s)" % (fn[:90], loc.split("/")[-1])
     print("last schedule points before the violation (step, thread, kind, address, function):")
-    for l in pts[-120:]:
+    for l in pts[-int(os.environ.get("REPLAY_TRACE_N", "120")):]:
         pc = int(l.split("pc=")[1], 16) if "pc=" in l and "(nil)" not in l.split("pc=")[1] else 0
         where = ""
         for (lo, hi, off, mod) in maps:
